@@ -129,6 +129,8 @@ func BuildConfig(p Plan, o Opts) *Config {
 		cfg.Hosts = append(cfg.Hosts, HostIP{HopName(i), p.NextHop(i)})
 	}
 	cfg.Hosts = append(cfg.Hosts, HostIP{"sentinel.verif.test", p.Sentinel()})
+	// the host that the regular-expression service names are about is also a machine: a next hop
+	cfg.Hosts = append(cfg.Hosts, HostIP{"regex.verif.test", p.NextHop(1)})
 	// the names every service defines for itself also stand in the global table, with other
 	// addresses: the entry of the service counts
 	cfg.Hosts = append(cfg.Hosts, HostIP{SelfName, p.Decoy(1)}, HostIP{PeerName, p.Decoy(2)})
